@@ -415,13 +415,17 @@ def eval_decode(afi: int, vpn: bool, data: bytes, cls: str):
     def v(kind, what):
         viols.append((f'decode:{cls}:{kind}', f'afi {afi} {"flow-vpn" if vpn else "flow"} nlri {data.hex() if len(data) < 64 else data[:24].hex() + f"..({len(data)} octets)"}: {what}'))
 
+    trace: dict = {}
     try:
-        rd, comps, flags, rest = fs.decode_nlri(data, afi, vpn)
+        rd, comps, flags, rest = fs.decode_nlri(data, afi, vpn, trace)
         if rest:
             raise fs.Malformed('trailing', 'bytes after the NLRI')  # never generated
         ref = ('ok', rd, comps, flags)
     except fs.Malformed as m:
         ref = ('malformed', m.reason)
+    if trace.get('offset6'):
+        # everything a decoder reads after an IPv6 prefix with an offset depends on how it frames that prefix
+        cls = cls + ':after-ipv6-offset'
     obs = observe_decode(afi, vpn, data)
     st = obs['status']
     if ref[0] == 'malformed':
@@ -442,6 +446,13 @@ def eval_decode(afi: int, vpn: bool, data: bytes, cls: str):
         v('several-rules', f'{len(rules)} rules delivered for one NLRI')
         return 'dec:several', True, viols
     (r,) = rules
+    if 'order' in flags:
+        # repeated / unordered component types are malformed by RFC 8955 4.2 but outside the property statement:
+        # only "nothing dropped, nothing altered" is required, with repeated types folded together
+        comps = fs.merge_repeated(comps)
+        r = dict(r, comps=fs.merge_repeated(r['comps']))
+        if 'json' in r:
+            r['json'] = (r['json'][0], fs.merge_repeated(r['json'][1]))
     want = _canon(comps, afi)
     have = _canon(r['comps'], afi, keep=True)
     outcome = 'dec:equal'
@@ -664,13 +675,21 @@ def cases(block, tier: str):
                 for path in paths:
                     yield _enc(rule, path, cls, {'bracket': 'min'})
             return
-        vals = valid if thorough else short_alphabet(ctype, afi)
-        paths = PATHS if thorough else ('api',)
+        # quick: the two values around the 1/2 octet boundary, API entry point; thorough: every valid boundary
+        # value through both API entry points, and the quick alphabet through the (5x slower) configuration
+        short = short_alphabet(ctype, afi)
+        vals = valid if thorough else short
         for op2, op3, j2, j3 in itertools.product(ops, ops, (0, 1), (0, 1)):
             for v1, v2, v3 in itertools.product(vals, repeat=3):
                 rule = {'afi': afi, 'rd': None,
                         'comps': _anchored(afi, ctype, [[0, ops[first], v1], [j2, op2, v2], [j3, op3, v3]]),
                         'actions': [['discard']]}
+                if not thorough:
+                    paths = ('api',)
+                elif v1 in short and v2 in short and v3 in short:
+                    paths = PATHS
+                else:
+                    paths = ('api', 'line')
                 for path in paths:
                     yield _enc(rule, path, cls, {'bracket': 'min'})
         return
